@@ -91,6 +91,20 @@ class Sched:
             self.parked.clear()  # everybody else finished or is blocked: the parked threads resume
         return base
 
+    def _others_or_wake(self, me):
+        """Threads this one can hand the baton to when it parks itself.  If every other live thread
+        is itself parked, they are woken (depth-2 parking: A parks at its position, B runs up to its
+        own position and parks, A resumes, then B)."""
+        others = [i for i in self.runnable() if i != me]
+        if not others:
+            woken = [i for i in range(self.n) if i != me and i in self.parked and self.alive[i]
+                     and self.blocked[i] is None]
+            if woken:
+                self.parked.clear()
+                self.probe("parked_threads_woken_by_a_second_park")
+                others = woken
+        return others
+
     def probe(self, k, n=1):
         self.probes[k] = self.probes.get(k, 0) + n
 
@@ -134,7 +148,8 @@ class Sched:
             if kind == "gc":
                 self._gc(me, label)
             elif kind == "park":
-                r = [i for i in self.runnable() if i != me]
+                r = self._others_or_wake(me) if self.strategy == "pct_shared" else \
+                    [i for i in self.runnable() if i != me]
                 if r:
                     self.parked.add(me)
                     self.probe("parked_at_shared_access" if self.strategy == "pct_shared"
@@ -156,7 +171,7 @@ class Sched:
             self.probe("shared_state_access_lines")
         if self.strategy == "pct_shared":
             if shared and self.park_at_shared.get(me) == self.shared_seen[me]:
-                others = [i for i in self.runnable() if i != me]
+                others = self._others_or_wake(me)
                 if others:
                     nxt = self.rng.choice(others)
                     self.parked.add(me)
